@@ -45,7 +45,8 @@ bool parse(std::string& txt, posit<nbits, es>& p) {
 		//std::cout << "[" << nbitsStr << "] [" << esStr << "] [" << bitStr << "] = " << raw << std::endl;
 		// if not aligned, setbits takes the least significant nbits, so we need to shift to pick up the most significant nbits
 		if (nbits < nbits_in) {
-			raw >>= (nbits_in - nbits);
+			// a shift by the width of raw or more is undefined: every bit is shifted out
+			raw = (nbits_in - nbits < 64u) ? (raw >> (nbits_in - nbits)) : 0ull;
 		}
 		p.setbits(raw);  
 		bSuccess = true;
